@@ -221,8 +221,29 @@ def classify(call, what=""):
     return call.get("_sig", "other")
 
 
+def sanitize_layout(call):
+    """the unlabelled layout is inside the property's precondition ("uniquely labelled") only when the selection
+    by label is the identity, i.e. when the common time window keeps every point of that dataset"""
+    _, mi_ns = mi_value(call["mi"])
+    tp, ts = call["p"]["t"], call["s"]["t"]
+    if not tp or not ts:
+        return
+    lo = max(min(tp), min(ts)) - mi_ns
+    hi = min(max(tp), max(ts)) + mi_ns
+    if call.get("start") is not None:
+        lo = max(lo, call["start"])
+    if call.get("end") is not None:
+        hi = min(hi, call["end"])
+    for d in (call["p"], call["s"]):
+        if d.get("layout") == "nolabel" and not all(lo <= t <= hi for t in d["t"]):
+            d["layout"] = "c"
+        if d.get("layout") == "time" and len(set(d["t"])) != len(d["t"]):
+            d["layout"] = "c"
+
+
 def run_call(ck, col, rec, call, R, state, use_model, lines_cb):
     """one collocate() on the Collocator `col`.  state: dict(built=int) per Collocator."""
+    sanitize_layout(call)
     from typhon.geographical import to_kilometers
     from typhon.utils.timeutils import to_timedelta
     rec.events.clear()
@@ -657,8 +678,11 @@ def gen_binned_direct(rng, R):
         s["t"] = sorted(t + (gap if rng.random() < 0.5 else 0) for t in s["t"])
     if rng.random() < 0.5:
         p, s = s, p
+    bf = rng.choice([1, 1, 2, 3, 10, 0.5, 0.25])
+    if mi_us * bf < 1:          # bin_factor * max_interval below the timedelta resolution is not a meaningful bin width
+        bf = 1
     return {"op": "binned", "p": {k: p[k] for k in ("t", "lat", "lon")}, "s": {k: s[k] for k in ("t", "lat", "lon")},
-            "mi_us": mi_us, "md": km, "bin_factor": rng.choice([1, 1, 2, 3, 10, 0.5, 0.25]), "magnitude_factor": rng.choice([10, 1, 0, 3]),
+            "mi_us": mi_us, "md": km, "bin_factor": bf, "magnitude_factor": rng.choice([10, 1, 0, 3]),
             "leaf_size": rng.choice([40, 2]), "seed": rng.randrange(2 ** 31)}
 
 
